@@ -314,6 +314,9 @@ func Build(s *Setup, reqs []*Req, o BuildOpts) *World {
 		}
 	}
 	walk(s.Nodes, base, nil)
+	if s.NestedRoute {
+		f.Routes("/__nested", "GET,POST", func(rw http.ResponseWriter) { _, _ = rw.Write([]byte("nested")) })
+	}
 	if len(late) > 0 {
 		f.Use(late...) // middleware added after the routes exist still precedes every route's handlers
 	}
